@@ -806,10 +806,13 @@ impl Check for C16 {
         "E1 unmerged: in every state reached by a history up to the depth, wrapper calls and core calls are executed on twins of the real object and compared bit for bit"
     }
     fn n_items(&self, tier: Tier) -> usize {
-        lattice(tier, c16_channels(tier)).len() + SWEEP_RATIOS.len()
+        lattice(tier, c16_channels(tier)).len() + SWEEP_RATIOS.len() + 1
     }
     fn run_item(&self, tier: Tier, idx: usize, journal: Option<&JournalFile>) -> Result<Value, String> {
         let nl = lattice(tier, c16_channels(tier)).len();
+        if idx == nl + SWEEP_RATIOS.len() {
+            return crate::wide::c16_item();
+        }
         if idx >= nl {
             // numeric coincidences between chunk size and ratio: chunk * ratio (or chunk / ratio)
             // one unit in the last place away from a whole number, where two ways of rounding a
